@@ -745,6 +745,20 @@ func (m *Machine) convert(v Val, from, to types.Type) Val {
 	}
 	if sl, ok := v.(Slice); ok {
 		if b, ok := to.Underlying().(*types.Basic); ok && b.Kind() == types.String {
+			if fs, ok := from.Underlying().(*types.Slice); ok && !isByte(fs.Elem()) {
+				// string([]rune): concrete runes only
+				var rs []rune
+				if sl.A != nil {
+					for _, c := range m.sliceElems(sl) {
+						r, ok := c.V.(Int)
+						if !ok || !r.IsC() {
+							m.incon("string([]rune) with a symbolic rune")
+						}
+						rs = append(rs, rune(int32(r.C)))
+					}
+				}
+				return Str{C: string(rs)}
+			}
 			return m.bytesToStr(sl)
 		}
 	}
